@@ -190,6 +190,13 @@ def analyse(cfg: dict, schedule: list, res: dict, out_lines: list[str]) -> list[
             if (t.get("admitted") == "1") != bool(h[3]) or t.get("state") != h[4]:
                 fails.append({"property": "C07", "kind": "divergence", "sig": "interleave/admission",
                               "detail": f"impl {h} vs model `{o}`", "replay": replay})
+                # C08: "once recovery_timeout_s has elapsed with no call outstanding, the next call is admitted" —
+                # the model (whose admissions are C06/C07's theorems) admits this call, every caller admitted so far
+                # has reported back, and the implementation refuses it
+                if t.get("admitted") == "1" and not h[3] and all(settles[c] > 0 for c in admitted):
+                    fails.append({"property": "C08", "kind": "violation", "sig": "C08/not-admitted-with-nothing-outstanding",
+                                  "detail": f"no admitted call is outstanding and the recovery timeout has elapsed (the model "
+                                            f"admits: `{o}`), yet caller {h[1]} is rejected: impl {h}", "replay": replay})
             if h[3]:
                 admitted.add(h[1])
         else:
@@ -236,6 +243,22 @@ F6_WITNESS = ({"threshold": 1, "window": 10, "recovery": 5, "trip": ["TRANSIENT"
                ("resume", 2, "ok")])
 
 
+# a call admitted BEFORE the circuit opened reports its failure while the circuit is already OPEN: the recovery
+# timeout still counts from the moment the circuit opened, so the call made exactly `recovery` later (nothing
+# outstanding) is the probe (C07 admission; C08 "once recovery_timeout_s has elapsed with no call outstanding,
+# the next call is admitted")
+def _late_failure_witnesses() -> list:
+    out = []
+    for entry in ("call", "execute"):
+        for late in ("fail_transient", "cancel", "ok"):
+            for gap in (1, 4):
+                cfg = {"threshold": 1, "window": 10, "recovery": 5, "trip": ["TRANSIENT"], "retry": 0, "abort_if": False}
+                out.append((cfg, [("start", 1, entry), ("start", 2, entry), ("advance", 1), ("resume", 2, "fail_transient"),
+                                  ("advance", gap), ("resume", 1, late), ("advance", 5 - gap), ("start", 3, entry),
+                                  ("resume", 3, "ok")]))
+    return out
+
+
 def gen(rng: random.Random) -> tuple[dict, list]:
     cfg = {"threshold": rng.choice([1, 1, 2]), "window": rng.choice([3, 10]), "recovery": rng.choice([2, 5]),
            "trip": rng.choice([["TRANSIENT"], ["TRANSIENT", "UNKNOWN"]]), "retry": rng.choice([0, 0, 1, 2]),
@@ -265,7 +288,7 @@ def gen(rng: random.Random) -> tuple[dict, list]:
 def run(tier: str, seed: int) -> dict:
     t0 = wall()
     rng = random.Random(seed * 31 + 5)
-    cases = [F7_WITNESS, F6_WITNESS]
+    cases = [F7_WITNESS, F6_WITNESS] + _late_failure_witnesses()
     n = 1500 if tier == "quick" else 30000
     cases += [gen(rng) for _ in range(n)]
     results = [play(cfg, sched) for cfg, sched in cases]
